@@ -254,6 +254,56 @@ theorem yaml_failure_is_parse_error (lower : Str → Str) (loads : Str → Excep
 
 example : yamlParseStr (fun _ => .error ()) "date: 2019-02-30".toList = .parseError := by decide
 
+/-- a blank or whitespace-only line (`not line.strip()`) -/
+def isBlank (l : Line) : Bool := l.all isSpace
+
+/-- THE ONLY pre-processing of YAML list content is dropping the lines whose first keyword starts with an
+`ignore_lines` prefix.  Every other line reaches the library unchanged and in its original order; in particular
+blank and whitespace-only lines — which are CONTENT inside literal / folded block scalars and multi-line quoted
+scalars — are never dropped (for non-empty prefixes; `lower "" = ""` holds of `str.lower`), and when no line
+matches a prefix the library gets exactly `'\n'.join(content)`. -/
+theorem filter_keeps_blank (lower : Str → Str) (hl : lower [] = []) (loads : Str → Except Unit JVal)
+    (ignore : List Str) (hi : ∀ p ∈ ignore, p ≠ []) (content : List Line) :
+    yamlParse lower loads ignore content =
+        yamlOutcome loads (joinNl (content.filter (fun l => !(yamlIgnored lower ignore l)))) ∧
+    (content.filter (fun l => !(yamlIgnored lower ignore l))).Sublist content ∧
+    (∀ l, l ∈ content.filter (fun l => !(yamlIgnored lower ignore l)) ↔
+          l ∈ content ∧ yamlIgnored lower ignore l = false) ∧
+    (content.filter (fun l => !(yamlIgnored lower ignore l))).filter isBlank = content.filter isBlank ∧
+    ((∀ l ∈ content, yamlIgnored lower ignore l = false) →
+      content.filter (fun l => !(yamlIgnored lower ignore l)) = content) := by
+  have hblank : ∀ l : Line, isBlank l = true → yamlIgnored lower ignore l = false := by
+    intro l hb
+    have hs : lstrip l = [] := by
+      induction l with
+      | nil => rfl
+      | cons c cs ih =>
+        simp only [isBlank, List.all_cons, Bool.and_eq_true] at hb
+        simp only [lstrip, hb.1, ↓reduceIte]
+        exact ih (by simpa [isBlank] using hb.2)
+    simp only [yamlIgnored, hs, hl, Bool.eq_false_iff, ne_eq, List.any_eq_true, not_exists, not_and]
+    intro p hp
+    cases p with
+    | nil => exact absurd rfl (hi [] hp)
+    | cons a as => simp [isPrefix]
+  refine ⟨rfl, List.filter_sublist, ?_, ?_, ?_⟩
+  · intro l; simp [List.mem_filter]
+  · rw [List.filter_filter]
+    apply List.filter_congr
+    intro l _
+    cases hb : isBlank l
+    · simp
+    · simp [hblank l hb]
+  · intro h
+    apply List.filter_eq_self.mpr
+    intro l hlc
+    simp [h l hlc]
+
+example : (["a: |".toList, "  x".toList, "".toList, "   ".toList, "  y".toList].filter
+    (fun l => !(yamlIgnored asciiLower ["warning:".toList, "note".toList] l))).length = 5 := by decide
+example : yamlParse asciiLower (fun t => if t = "a: |\n  x\n\n  y".toList then .ok ⟨.map, "M".toList⟩ else .error ())
+    ["note".toList] ["a: |".toList, "  x".toList, "".toList, "  y".toList] = .data ⟨.map, "M".toList⟩ none := by decide
+
 /-- without `ignore_lines` every line is loaded -/
 theorem yaml_no_ignore (lower : Str → Str) (content : List Line) :
     content.filter (fun l => !(yamlIgnored lower [] l)) = content := by
